@@ -127,6 +127,13 @@ def lattice_search(records: List[dict], pick: Optional[List[int]] = None):
             for j in range(n):
                 bit = 1 << j
                 if mask & bit:
+                    # the same record once more (a file ingested twice, a line duplicated): the SET of records is unchanged
+                    d = copy.deepcopy(agg)
+                    d.ingest(copy.deepcopy(records[idx[j]]))
+                    transitions += 1
+                    if canon_state(d) != canon[mask]:
+                        viols.append(("duplicate-record-changes-verdict", f"ingesting record {idx[j]} a second time changes the verdict of the same record set",
+                                      {"subset": _members(mask, idx), "last": idx[j], "kind": "lattice-dup"}))
                     continue
                 m2 = mask | bit
                 rec = copy.deepcopy(records[idx[j]])
@@ -203,6 +210,23 @@ def make_traces(tier: str) -> List[Tuple[str, List[dict]]]:
             recs, files, res = traces.traced_launch(prog, rs, mode=mode)
             if recs:
                 out.append((f"launch:{'+'.join(prog)}:{mode}:exit{res.code}", recs))
+    # k-way interleavings of independent traces in ONE aggregator (per-run files read round-robin; two launches; a launch and a
+    # stand-alone run): every run / launch keeps the verdict it has alone
+    def rr(*seqs):
+        seqs = [list(s_) for s_ in seqs]
+        merged = []
+        while any(seqs):
+            for s_ in seqs:
+                if s_:
+                    merged.append(s_.pop(0))
+        return merged
+
+    launches_ = [t for t in out if t[0].startswith("launch:")]
+    singles_ = [t for t in out if t[0].startswith("single:")]
+    if len(launches_) >= 2 and len(singles_) >= 2:
+        out.append(("interleaved:launch+launch", rr(launches_[0][1], launches_[-1][1])))
+        out.append(("interleaved:launch+single+single", rr(launches_[0][1], singles_[0][1], singles_[-1][1])))
+        out.append(("interleaved:single-reversed+single", rr(list(reversed(singles_[1][1])), singles_[2 % len(singles_)][1])))
     return out
 
 
